@@ -34,6 +34,10 @@ pub enum QOp {
     Yield,
     /// `flush()` through the queuing handle (reaches the wrapped sink directly)
     Flush { h: usize },
+    /// emit the empty string: a legal metric for `MetricSink::emit`, at most once per case
+    EmitEmpty { h: usize },
+    /// emit `n` metrics in a row (ids first..first+n): fills large queues
+    Burst { h: usize, first: u32, n: u32 },
 }
 
 #[derive(Clone, Debug, Serialize, Deserialize)]
@@ -301,6 +305,37 @@ fn run_prog(task_no: usize, ops: &[QOp], first: QueuingMetricSink, sh: &Arc<Shar
                         Err(p) => ApiRes::Panicked(p),
                     };
                     record(sh, "emit", Some(*id), s, res, before, gc);
+                }
+            }
+            QOp::EmitEmpty { h } => {
+                if let Some(q) = slots.get(*h).and_then(|s| s.as_ref()) {
+                    kernel::set_label("emit \"\"");
+                    let gc = any_gate_closed(sh);
+                    let before = stats3();
+                    let r = call(|| q.emit(""));
+                    let res = match r {
+                        Ok(Ok(n)) => ApiRes::Ok(n),
+                        Ok(Err(e)) => ApiRes::Err(e.to_string()),
+                        Err(p) => ApiRes::Panicked(p),
+                    };
+                    record(sh, "emit", None, String::new(), res, before, gc);
+                }
+            }
+            QOp::Burst { h, first, n } => {
+                if let Some(q) = slots.get(*h).and_then(|s| s.as_ref()) {
+                    for id in *first..*first + *n {
+                        let s = format!("m{id}.t{me}");
+                        kernel::set_label(format!("emit {s}"));
+                        let gc = any_gate_closed(sh);
+                        let before = stats3();
+                        let r = call(|| q.emit(&s));
+                        let res = match r {
+                            Ok(Ok(n)) => ApiRes::Ok(n),
+                            Ok(Err(e)) => ApiRes::Err(e.to_string()),
+                            Err(p) => ApiRes::Panicked(p),
+                        };
+                        record(sh, "emit", Some(id), s, res, before, gc);
+                    }
                 }
             }
             QOp::Clone { src, dst } => {
@@ -616,6 +651,9 @@ impl Engine for E3 {
         let mut prog = rng.split(2);
         let mut flt = rng.split(3);
         let mut sch = rng.split(4);
+        // rarely: a large bounded queue (anything that treats large capacities differently, or that
+        // leaks capacity, shows only here)
+        let big_cap = if matches!(focus, "C10" | "C11" | "C08" | "C09" | "C15") && cfg.chance(1, 150) { Some(*cfg.pick(&[1025usize, 1500, 2049])) } else { None };
         let cap = match cfg.weighted(&[30, 22, 16, 10, 14, if focus == "C20" { 8 } else { 0 }]) {
             0 => None,
             1 => Some(1),
@@ -624,6 +662,7 @@ impl Engine for E3 {
             4 => Some(8),
             _ => Some(0),
         };
+        let cap = if big_cap.is_some() { big_cap } else { cap };
         let handler = match focus {
             "C16" => cfg.chance(8, 10),
             _ => cfg.chance(1, 4),
@@ -665,6 +704,20 @@ impl Engine for E3 {
             let n = prog.usize_below(9);
             producers.push(gen_prog(&mut prog, n, &mut next_id, n_gates, w_clone, w_drop, w_flush));
         }
+        let mut main_ops = main_ops;
+        // the empty string is a legal metric: at most one per case
+        if cfg.chance(1, 25) {
+            let at = cfg.usize_below(main_ops.len() + 1);
+            main_ops.insert(at, QOp::EmitEmpty { h: 0 });
+        }
+        // large queue: panic / stall on the first metrics, then a burst that must fit exactly
+        let mut burst_plan: Vec<SinkOutcome> = Vec::new();
+        if let Some(bc) = big_cap {
+            let n = bc as u32 + 2;
+            main_ops.push(QOp::Burst { h: 0, first: next_id, n });
+            next_id += n;
+            burst_plan = vec![SinkOutcome::Panic, if n_gates > 0 { SinkOutcome::Stall(0) } else { SinkOutcome::Ok }];
+        }
         let total_emits = next_id as usize;
         // outcome plan
         let (w_err, w_panic, w_slow, w_stall): (u32, u32, u32, u32) = match focus {
@@ -699,6 +752,19 @@ impl Engine for E3 {
             };
             prev_panic = o == SinkOutcome::Panic;
             plan.push(o);
+        }
+        if !burst_plan.is_empty() {
+            // the scripted outcomes of the first invocations set the scene for the burst
+            for (i, o) in burst_plan.into_iter().enumerate() {
+                if i < plan.len() {
+                    plan[i] = o;
+                }
+            }
+            for o in plan.iter_mut().skip(2) {
+                if !matches!(o, SinkOutcome::Ok | SinkOutcome::Err(_)) {
+                    *o = SinkOutcome::Ok;
+                }
+            }
         }
         let sampler = match focus {
             "C15" => *cfg.pick(&[0usize, 2, 4, 6]),
@@ -976,6 +1042,8 @@ fn judge(case: &QCase, main: &Option<Obs>, end_tasks: &[TaskInfo], out: &mut Out
         return;
     }
 
+    // "the sink keeps accepting metrics" after a panic is C11's as well
+    let panic_c10: Vec<&str> = if panics_fired > 0 { vec!["C10", "C11"] } else { vec!["C10"] };
     // ---- C10: emit never waits, result is a function of queue room, capacity never exceeded ----
     for e in obs.prod.iter().filter(|e| e.what == "emit") {
         if e.gate_closed {
@@ -988,7 +1056,7 @@ fn judge(case: &QCase, main: &Option<Obs>, end_tasks: &[TaskInfo], out: &mut Out
             out.violate(&["C10"], "queue.emit-not-prompt", format!("emit {} took {} scheduling steps of its own task", e.s, e.steps));
         }
         // the channel event of this emit
-        let ce = obs.chan.iter().find(|c| (c.op == "try_send" || c.op == "send") && c.payload.len() > 2 && c.payload[2..] == e.s && c.task == e.task);
+        let ce = obs.chan.iter().find(|c| (c.op == "try_send" || c.op == "send") && c.payload.starts_with("S:") && c.payload[2..] == e.s && c.task == e.task);
         match (&e.res, ce) {
             (ApiRes::Ok(n), Some(c)) => {
                 if !c.ok {
@@ -1012,10 +1080,10 @@ fn judge(case: &QCase, main: &Option<Obs>, end_tasks: &[TaskInfo], out: &mut Out
                 } else {
                     out.probe("emit_refused_full");
                     match case.cap {
-                        None => out.violate(&["C10"], "queue.unbounded-refused", format!("an unbounded queue refused {}: {msg}", e.s)),
+                        None => out.violate(&panic_c10, "queue.unbounded-refused", format!("an unbounded queue refused {}: {msg}", e.s)),
                         Some(cap) => {
                             if c.len_after < cap {
-                                out.violate(&["C10"], "queue.refused-with-room", format!("emit {} was refused ({msg}) while the queue held {} of {cap}", e.s, c.len_after));
+                                out.violate(&panic_c10, "queue.refused-with-room", format!("emit {} was refused ({msg}) while the queue held {} of {cap}", e.s, c.len_after));
                             }
                         }
                     }
@@ -1026,13 +1094,13 @@ fn judge(case: &QCase, main: &Option<Obs>, end_tasks: &[TaskInfo], out: &mut Out
                 // bookkeeping): judge by the occupancy the channel trace shows during the call
                 out.probe("emit_refused_full");
                 match case.cap {
-                    None => out.violate(&["C10"], "queue.unbounded-refused", format!("an unbounded queue refused {}: {msg}", e.s)),
+                    None => out.violate(&panic_c10, "queue.unbounded-refused", format!("an unbounded queue refused {}: {msg}", e.s)),
                     Some(cap) => {
                         let before = obs.chan.iter().filter(|c| c.step <= e.step_before).last().map(|c| c.len_after).unwrap_or(0);
                         let during: Vec<usize> = obs.chan.iter().filter(|c| c.step > e.step_before && c.step <= e.step_at).map(|c| c.len_after).collect();
                         let max_occ = during.iter().copied().chain(std::iter::once(before)).max().unwrap_or(0);
                         if max_occ < cap {
-                            out.violate(&["C10"], "queue.refused-with-room", format!("emit {} was refused ({msg}) while the queue never held more than {max_occ} of {cap} during the call", e.s));
+                            out.violate(&panic_c10, "queue.refused-with-room", format!("emit {} was refused ({msg}) while the queue never held more than {max_occ} of {cap} during the call", e.s));
                         }
                     }
                 }
@@ -1090,7 +1158,12 @@ fn judge(case: &QCase, main: &Option<Obs>, end_tasks: &[TaskInfo], out: &mut Out
                 out.violate(&panic_props(&["C08"]), "queue.delivered-never-accepted", format!("wrapped sink received {d:?} which no emit had queued"));
             }
             if !seen.insert((*d).clone()) {
-                out.violate(&panic_props(&["C08"]), "queue.delivered-twice", format!("wrapped sink received {d:?} twice"));
+                // a metric handed over again is also a worker that does not move on after a failure (C09)
+                let mut p = panic_props(&["C08"]);
+                if obs.all_dropped {
+                    p.push("C09");
+                }
+                out.violate(&p, "queue.delivered-twice", format!("wrapped sink received {d:?} twice"));
             }
         }
     }
@@ -1204,6 +1277,9 @@ fn judge(case: &QCase, main: &Option<Obs>, end_tasks: &[TaskInfo], out: &mut Out
         for f in obs.prod.iter().filter(|e| e.what == "flush" && matches!(e.res, ApiRes::Unit)) {
             out.probe("flush_through_queuing_sink");
             for (k, text, exit_step) in &handed {
+                if text.is_empty() {
+                    continue; // the empty metric cannot be searched for on the wire
+                }
                 if *exit_step < f.step_before && on_wire(text, f.step_at) == 0 {
                     out.violate(
                         &["C06"],
@@ -1217,6 +1293,9 @@ fn judge(case: &QCase, main: &Option<Obs>, end_tasks: &[TaskInfo], out: &mut Out
         // after the last drop the wrapped buffered sink is dropped and must have flushed the rest
         if obs.all_dropped && obs.final_tasks.iter().all(|t| !t.anon || t.state == TState::Finished) {
             for (k, text, _) in &handed {
+                if text.is_empty() {
+                    continue;
+                }
                 let n = on_wire(text, u64::MAX);
                 if n != 1 {
                     out.violate(
